@@ -15,10 +15,13 @@ EXPLANATION = (
     "measure); R-defaults (default measures / filters per task are the rank-based or sign-free ones: "
     "kruskal, tschuprowt, |correlation|, spearman filter; quantitative lists are routed to dtype "
     "float, qualitative lists to str); R-column-order-free (the ranking table is built over X[features], "
-    "never in the order of X's columns, so permuting columns cannot change how ties are broken)."
+    "never in the order of X's columns, so permuting columns cannot change how ties are broken); "
+    "R-colsample-cover (no feature is skipped by the colsample split, so a copy of the target is always measured); "
+    "R-encoding-free (exported measures apply no absolute tolerance / rounding to raw values and no one-sided "
+    "order statistic: they commute with positive rescaling and negation)."
 )
 NOT_DECIDED = "the invariance of the returned list on data; scipy's statistics"
-FLOORS = {"R-abs-corr": 2, "R-no-float-truthiness": 10, "R-rank-desc": 5, "R-defaults": 5, "R-column-order-free": 2}
+FLOORS = {"R-abs-corr": 2, "R-no-float-truthiness": 10, "R-rank-desc": 5, "R-defaults": 5, "R-column-order-free": 2, "R-colsample-cover": 2, "R-encoding-free": 10}
 
 
 def check(ctx):
@@ -27,6 +30,8 @@ def check(ctx):
     S.check_rank_desc(ctx, "R-rank-desc")
     S.check_defaults(ctx, "R-defaults")
     S.check_column_order_free(ctx, "R-column-order-free")
+    S.check_colsample_cover(ctx, "R-colsample-cover")
+    S.check_measure_encodings(ctx, "R-encoding-free")
 
 
 _D14_FIXED = "    # absolute linear correlation (1 - correlation distance): the greater, the more associated\n    d_corr = abs(1 - correlation(x[~nans], y[~nans]))\n\n    # updating association\n    active, measurement = False, {\"distance_measure\": nan}\n    if d_corr == d_corr:  # checking for nan"
@@ -36,6 +41,9 @@ MUTANTS = [
     M("D14-half: abs kept, truthiness test back", [(F_QTM, "    if d_corr == d_corr:  # checking for nan", "    if d_corr:")], "R-no-float-truthiness", "distance_measure", quick=True),
     M("signed correlation in the filter", [(F_QTF, "    X_corr = X[prefered_order].corr(corr_measure).abs()", "    X_corr = X[prefered_order].corr(corr_measure)")], "R-abs-corr", "quantitative_filter"),
     M("measures applied in X's column order", [(F_SEL, "        X[features]\n        .apply(feature_association,", "        X.loc[:, X.columns.isin(features)]\n        .apply(feature_association,")], "R-column-order-free"),
+    M("colsample split drops the remainder", [(F_SEL, "                    # adding last sample with all remaining features\n                    feature_samples += [features[chunks * (int(1 / self.colsample) - 1) :]]\n", ""), (F_SEL, "                        for i in range(int(1 / self.colsample) - 1)", "                        for i in range(int(1 / self.colsample))")], "R-colsample-cover"),
+    M("quartiles taken as lower order statistics", [(F_QTM, "    q3 = x.quantile(0.75)  # 3rd quartile\n    q1 = x.quantile(0.25)  # 1st quartile", "    q3 = x.quantile(0.75, interpolation=\"lower\")  # 3rd quartile\n    q1 = x.quantile(0.25, interpolation=\"lower\")  # 1st quartile")], "R-encoding-free", "iqr_measure"),
+    M("mode share with an absolute tolerance", [("AutoCarver/selectors/measures/base_measures.py", "    pct_mode = (x == mode).mean()  # Computing percentage of the mode", "    pct_mode = isclose(x, mode).mean()  # Computing percentage of the mode"), ("AutoCarver/selectors/measures/base_measures.py", "from pandas import Series", "from numpy import isclose\nfrom pandas import Series")], "R-encoding-free", "mode_measure"),
     M("ranking ascending", [(F_SEL, "        initial_associations = initial_associations.sort_values(measure_names, ascending=False)", "        initial_associations = initial_associations.sort_values(measure_names, ascending=True)")], "R-rank-desc", "decreasing"),
     M("regression default uses the pearson filter", [("AutoCarver/selectors/regression_selector.py", "            quantitative_filters = [spearman_filter]", "            quantitative_filters = []")], "R-defaults", "RegressionSelector"),
     M("classification routes qualitative measures to quantitative features", [("AutoCarver/selectors/classification_selector.py", "        measures = {\"float\": quantitative_measures, \"str\": qualitative_measures}", "        measures = {\"float\": qualitative_measures, \"str\": quantitative_measures}")], "R-defaults", "ClassificationSelector"),
